@@ -108,14 +108,19 @@ def run_impl(case, cfg=None):
     st = cfg.picked_strategy
     orig_comp = st.do_competition
 
-    def comp(protein_groups, infos, score_type):
+    def comp(*a, **k):
+        # the wrapper must not depend on how the caller spells the call (positional / keyword)
+        names = ("protein_groups", "protein_group_peptide_infos", "protein_score")
+        protein_groups = a[0] if len(a) > 0 else k.get("protein_groups")
+        infos = a[1] if len(a) > 1 else next((k[n] for n in k if "info" in n), None)
+        score_type = a[2] if len(a) > 2 else next((k[n] for n in k if "score" in n), None)
         rec["comp"].append({
             "groups": [list(g) for g in protein_groups],
             "infos": canon_infos(infos),
             "scores": [rat(float(score_type.calculate_score(i))) for i in infos],
             "pep_cutoff": rat(float(getattr(score_type, "peptide_score_cutoff", float("nan")))) if hasattr(score_type, "peptide_score_cutoff") else None,
         })
-        ret = orig_comp(protein_groups, infos, score_type)
+        ret = orig_comp(*a, **k)
         try:
             rec["comp"][-1]["out_groups"] = [list(g) for g in ret[0]]
             rec["comp"][-1]["out_scores"] = [rat(float(x)) for x in ret[2]]
@@ -126,7 +131,16 @@ def run_impl(case, cfg=None):
 
     orig_report = ProteinGroupResults.__dict__["from_protein_groups"]
 
-    def report(cls, protein_groups, infos, scores, qvals, score_cutoff, keep_all):
+    def report(cls, *a, **k):
+        import inspect
+
+        try:
+            ba = inspect.signature(orig_report.__func__).bind(cls, *a, **k)
+            ba.apply_defaults()
+            vals = list(ba.arguments.values())[1:]
+        except TypeError:
+            vals = list(a)
+        protein_groups, infos, scores, qvals, score_cutoff, keep_all = (vals + [None] * 6)[:6]
         rec["report"].append({
             "groups": [list(g) for g in protein_groups],
             "infos": canon_infos(infos),
@@ -135,7 +149,7 @@ def run_impl(case, cfg=None):
             "cutoff": "inf" if score_cutoff == float("inf") else rat(float(score_cutoff)),
             "keepAll": bool(keep_all),
         })
-        return orig_report.__func__(cls, protein_groups, infos, scores, qvals, score_cutoff, keep_all)
+        return orig_report.__func__(cls, *a, **k)
 
     np.random.seed(1)
     np.random.shuffle = shuffle
@@ -310,16 +324,32 @@ def oracle_c01(case, impl_out):
     # competition returned - nothing withheld from the report may be taken out of it beforehand
     surv = last.get("survivors")
     if surv is not None:
-        if sorted(map(tuple, surv)) != sorted(map(tuple, groups)):
-            missing = [g for g in surv if g not in groups]
-            extra_ = [g for g in groups if g not in surv]
+        # groups as member SETS (the property says nothing on member order); a group the competition returned may be
+        # missing from the ranking only for a reason C02 itself allows (contaminant group, no supporting peptide) - such a
+        # removal may live on either side of the call; nothing may be added
+        fs = lambda g: frozenset(g)
+        ev_of = {fs(g): e for g, e in zip(last.get("comp_groups", []), last.get("comp_infos", []))}
+        ranked = {}
+        for g in groups:
+            ranked[fs(g)] = ranked.get(fs(g), 0) + 1
+        missing = []
+        for g in surv:
+            if ranked.get(fs(g), 0) > 0:
+                ranked[fs(g)] -= 1
+            elif g and not (all("CON__" in m for m in g) or not ev_of.get(fs(g), True)):
+                missing.append(g)
+        extra_ = [list(k_) for k_, n_ in ranked.items() if n_ > 0]
+        if missing or extra_:
             return (f"the ranking the q-values were computed on is not the set of groups that survived the competition: "
                     f"survivors left out {missing}, groups added {extra_}")
         ss = last.get("survivor_scores")
-        if ss is not None and sorted(zip(map(tuple, surv), [fl(x) for x in ss])) != sorted(zip(map(tuple, groups), scores)):
-            return "a ranked group does not carry the score it left the competition with"
-    if any(a < b for a, b in zip(scores, scores[1:])):
-        return "ranking is not in non-increasing score order"
+        if ss is not None:
+            by = {}
+            for g, x in zip(surv, ss):
+                by.setdefault(fs(g), []).append(fl(x))
+            for g, x in zip(groups, scores):
+                if x not in by.get(fs(g), [x]):
+                    return "a ranked group does not carry the score it left the competition with"
     if len(qvals) != len(groups):
         return (f"{len(groups)} groups were ranked but {len(qvals)} q-values were computed: "
                 f"the groups from rank {min(len(qvals), len(groups))} on have no q-value")
@@ -409,8 +439,9 @@ def oracle_c06(case, impl_out):
 
     # "the listed proteins are the members [of the group]": a ranked group is one of the groups the grouping made and
     # the competition was handed, with all of its members
+    comp_sets = {frozenset(h) for h in last["comp_groups"]}
     for g in last["ranked_groups"]:
-        if g not in last["comp_groups"]:
+        if frozenset(g) not in comp_sets:
             sup = [h for h in last["comp_groups"] if set(g) & set(h)]
             return f"ranked group {g} is not one of the groups handed to the competition (overlapping: {sup})"
     c = {"groups": last["ranked_groups"], "infos": last["ranked_infos"], "scores": last["ranked_scores"], "qvals": last["qvals"],
